@@ -3,63 +3,46 @@ namespace CV.Deep
 open CV CV.Merge
 open CV.Val (lookup insert keys KVs)
 
-/-! ### `mergeIPAMConfig` -/
+/-! ### `mergeIPAMConfig` (pools keyed by subnet: `ipamPools`, `ipamFold`, `ipamStep`) -/
 
-def EntRel : Option KVs → Option KVs → Prop
-  | some m, some m' => MRel m m'
-  | none, none => True
-  | _, _ => False
+/-- two lists of pools, pool by pool related and well formed -/
+inductive PoolsRel : List KVs → List KVs → Prop
+  | nil : PoolsRel [] []
+  | cons {m m' : KVs} {l l' : List KVs} : MRel m m' → PoolsRel l l' → PoolsRel (m :: l) (m' :: l')
 
-inductive CfgRel : List (Option KVs) → List (Option KVs) → Prop
-  | nil : CfgRel [] []
-  | cons {e e' : Option KVs} {l l' : List (Option KVs)} : EntRel e e' → CfgRel l l' → CfgRel (e :: l) (e' :: l')
+theorem PoolsRel.append {a a' b b' : List KVs} (h1 : PoolsRel a a') (h2 : PoolsRel b b') : PoolsRel (a ++ b) (a' ++ b') := by
+  induction h1 with
+  | nil => exact h2
+  | cons hm _ ih => exact .cons hm ih
 
-structure StRel (st st' : IpamSt) : Prop where
-  right : OptMRel st.right st'.right
-  configs : CfgRel st.configs st'.configs
+theorem subnetOf_eqv {m m' : KVs} (h : MRel m m') : Eqv (subnetOf m) (subnetOf m') := getD_eqv h.1 "subnet"
 
-theorem MRel.nil : MRel [] [] := ⟨MEqv.nil, MWF.nil, MWF.nil⟩
-
-theorem getD_rel {l l' : Option KVs} (h : OptMRel l l') : MRel (l.getD []) (l'.getD []) := by
-  cases l <;> cases l' <;> simp only [OptMRel] at h
-  · exact MRel.nil
-  · exact h
-
-theorem entry_rel {st st' : IpamSt} (hr : OptMRel st.right st'.right) {e e' : Option KVs} (he : EntRel e e') :
-    MRel (st.entry e) (st'.entry e') := by
-  cases e <;> cases e' <;> simp only [EntRel] at he
-  · exact getD_rel hr
-  · exact he
-
-theorem subnetOf_eqv {l l' : Option KVs} (h : OptMRel l l') : Eqv (subnetOf l) (subnetOf l') := by
-  cases l <;> cases l' <;> simp only [OptMRel] at h
-  · exact .null
-  · exact getD_eqv h.1 "subnet"
-
-theorem ipamIndex_eq {st st' : IpamSt} (hr : OptMRel st.right st'.right) {s s' : Val} (hs : Eqv s s') :
-    ∀ {l l' : List (Option KVs)}, CfgRel l l' → ∀ i, ipamIndex st s l i = ipamIndex st' s' l' i := by
+theorem ipamIndex_eq {s s' : Val} (hs : Eqv s s') : ∀ {l l' : List KVs}, PoolsRel l l' → ∀ i, ipamIndex s l i = ipamIndex s' l' i := by
   intro l l' h
   induction h with
   | nil => intro i; rfl
-  | cons he _ ih =>
+  | cons hm _ ih =>
     intro i
-    simp only [ipamIndex]
-    rw [ifaceEq_eqv (getD_eqv (entry_rel hr he).1 "subnet") hs, ih]
+    simp only [ipamIndex, sameScalar_eqv (subnetOf_eqv hm) hs, ih]
 
-theorem listSet_rel {l l' : List (Option KVs)} (h : CfgRel l l') {e e' : Option KVs} (he : EntRel e e') :
-    ∀ i, CfgRel (listSet l i e) (listSet l' i e') := by
+theorem listSet_rel {l l' : List KVs} (h : PoolsRel l l') {m m' : KVs} (hm : MRel m m') :
+    ∀ i, PoolsRel (listSet l i m) (listSet l' i m') := by
   induction h with
   | nil => intro i; exact .nil
   | cons h1 h2 ih =>
     intro i
     cases i with
-    | zero => exact .cons he h2
+    | zero => exact .cons hm h2
     | succ n => exact .cons h1 (ih n)
 
-theorem CfgRel.append {a a' b b' : List (Option KVs)} (h1 : CfgRel a a') (h2 : CfgRel b b') : CfgRel (a ++ b) (a' ++ b') := by
-  induction h1 with
-  | nil => exact h2
-  | cons he _ ih => exact .cons he ih
+theorem getD_rel {l l' : List KVs} (h : PoolsRel l l') : ∀ i : Nat, MRel (l[i]?.getD []) (l'[i]?.getD []) := by
+  induction h with
+  | nil => intro i; simpa using MRel.nil
+  | cons h1 _ ih =>
+    intro i
+    cases i with
+    | zero => simpa using h1
+    | succ n => simpa using ih n
 
 /-- `mergeMappings` delivers related *and well-formed* results -/
 theorem mk_rel (mk : KVs → KVs → TPath → Out KVs) (p : TPath) (hmk : MkCongr mk p) (hwf : MkWF mk p)
@@ -68,165 +51,66 @@ theorem mk_rel (mk : KVs → KVs → TPath → Out KVs) (p : TPath) (hmk : MkCon
   cases h1 : mk a b p <;> cases h2 : mk a' b' p <;> simp only [h1, h2, OutEqv] at h ⊢
   · exact ⟨h, hwf a b _ ha.2.1 hb.2.1 h1, hwf a' b' _ ha.2.2 hb.2.2 h2⟩
 
-/-- the merge of the current `right` with one override entry -/
-def mergedOf (mk : KVs → KVs → TPath → Out KVs) (right left : Option KVs) (p : TPath) : Out (Option KVs) :=
-  match right, left with
-  | some a, some b => (mk a b p).bind fun m => .ok (some m)
-  | some a, none => .ok (some a)
-  | none, some (_ :: _) => .panic "override.mergeMappings"
-  | none, _ => .ok none
+theorem poolsOf_rel : ∀ {xs xs' : List Val}, Eqv (.seq xs) (.seq xs') → WF (.seq xs) → WF (.seq xs') →
+    OutEqv PoolsRel (poolsOf xs) (poolsOf xs') := by
+  intro xs
+  induction xs with
+  | nil => intro xs' h _ _; cases h; exact .nil
+  | cons x r ih =>
+    intro xs' h w w'
+    cases h with | seqCons hx hr =>
+    cases w with | seqCons wx wr =>
+    cases w' with | seqCons wx' wr' =>
+    simp only [poolsOf]
+    refine OutEqv.bind (intoMap_eqv .null .null hx wx wx') (fun m m' hm => ?_)
+    refine OutEqv.bind (ih hr wr wr') (fun ms ms' hms => ?_)
+    exact .cons hm hms
 
-theorem mergedOf_rel (mk : KVs → KVs → TPath → Out KVs) (p : TPath) (hmk : MkCongr mk p) (hwf : MkWF mk p)
-    {r r' l l' : Option KVs} (hr : OptMRel r r') (hl : OptMRel l l') :
-    OutEqv OptMRel (mergedOf mk r l p) (mergedOf mk r' l' p) := by
-  cases r <;> cases r' <;> simp only [OptMRel] at hr
-  · cases l <;> cases l' <;> simp only [OptMRel] at hl
-    · simp [mergedOf, OutEqv, OptMRel]
-    · rename_i b b'
-      have hnil := hl.1.nil_iff
-      cases b with
-      | nil => have : b' = [] := hnil.mp rfl; subst this; simp [mergedOf, OutEqv, OptMRel]
-      | cons _ _ =>
-        cases b' with
-        | nil => have := hnil.mpr rfl; cases this
-        | cons _ _ => simp [mergedOf, OutEqv]
-  · cases l <;> cases l' <;> simp only [OptMRel] at hl
-    · simpa [mergedOf, OutEqv, OptMRel] using hr
-    · simp only [mergedOf]
-      exact OutEqv.bind (mk_rel mk p hmk hwf hr hl) (fun m m' hm => by simpa [OutEqv, OptMRel] using hm)
+theorem ipamPools_rel {v v' : Val} (h : Eqv v v') (wv : WF v) (wv' : WF v') :
+    OutEqv PoolsRel (ipamPools v) (ipamPools v') := by
+  cases h with
+  | null => exact .nil
+  | seqNil => exact poolsOf_rel .seqNil wv wv'
+  | seqCons a b => exact poolsOf_rel (.seqCons a b) wv wv'
+  | bool b => simp [ipamPools, OutEqv]
+  | int i => simp [ipamPools, OutEqv]
+  | float s => simp [ipamPools, OutEqv]
+  | str s => simp [ipamPools, OutEqv]
+  | map _ _ => simp [ipamPools, OutEqv]
 
-/-- the entry stored for the merged configuration: a nil `right` stays nil, otherwise an alias of `right` -/
-def entryOf (merged : Option KVs) : Option KVs :=
-  match merged with
-  | none => some []
-  | some _ => none
-
-theorem entryOf_rel {m m' : Option KVs} (h : OptMRel m m') : EntRel (entryOf m) (entryOf m') := by
-  cases m <;> cases m' <;> simp only [OptMRel] at h
-  · exact MRel.nil
-  · trivial
-
-/-- the `doMerge` closure of the model, with the rest of the loop as a continuation -/
-def doM (mk : KVs → KVs → TPath → Out KVs) (st : IpamSt) (left : Option KVs) (p : TPath)
-    (k : IpamSt → Out IpamSt) : Out IpamSt :=
-  (mergedOf mk st.right left p).bind fun merged =>
-    let st1 : IpamSt := ⟨st.configs, merged⟩
-    match ipamIndex st1 (subnetOf merged) st1.configs 0 with
-    | none => .panic "override.mergeIPAMConfig"
-    | some (some i) => k ⟨listSet st1.configs i (entryOf merged), merged⟩
-    | some none => k ⟨st1.configs ++ [entryOf merged], merged⟩
-
-theorem ipamInner_cons (mk : KVs → KVs → TPath → Out KVs) (ov : Val) (rest : List Val) (st : IpamSt) (p : TPath) :
-    ipamInnerWith mk (ov :: rest) st p =
-      (intoMap .null ov).bind fun left =>
-        match ifaceEq (subnetOf left) (subnetOf st.right) with
-        | none => .panic "override.mergeIPAMConfig"
-        | some same =>
-          if same then doM mk st left p (fun s => ipamInnerWith mk rest s p)
-          else
-            match ipamIndex st (subnetOf left) st.configs 0 with
-            | none => .panic "override.mergeIPAMConfig"
-            | some none => ipamInnerWith mk rest ⟨st.configs ++ [some (left.getD [])], st.right⟩ p
-            | some (some _) => doM mk st left p (fun s => ipamInnerWith mk rest s p) := by
-  rw [ipamInnerWith]
-  rfl
-
-theorem doM_rel (mk : KVs → KVs → TPath → Out KVs) (p : TPath) (hmk : MkCongr mk p) (hwf : MkWF mk p)
-    {st st' : IpamSt} (hst : StRel st st') {left left' : Option KVs} (hl : OptMRel left left')
-    {k k' : IpamSt → Out IpamSt} (hk : ∀ s s', StRel s s' → OutEqv StRel (k s) (k' s')) :
-    OutEqv StRel (doM mk st left p k) (doM mk st' left' p k') := by
-  simp only [doM]
-  refine OutEqv.bind (mergedOf_rel mk p hmk hwf hst.right hl) (fun merged merged' hm => ?_)
-  have hent := entryOf_rel hm
-  have hidx := ipamIndex_eq (st := ⟨st.configs, merged⟩) (st' := ⟨st'.configs, merged'⟩) hm (subnetOf_eqv hm)
-    hst.configs 0
-  rw [hidx]
-  split
-  · trivial
-  · exact hk _ _ ⟨hm, listSet_rel hst.configs hent _⟩
-  · exact hk _ _ ⟨hm, hst.configs.append (.cons hent .nil)⟩
-
-theorem ipamInner_rel (mk : KVs → KVs → TPath → Out KVs) (p : TPath) (hmk : MkCongr mk p) (hwf : MkWF mk p) :
-    ∀ {os os' : List Val}, Eqv (.seq os) (.seq os') → WF (.seq os) → WF (.seq os') →
-    ∀ {st st' : IpamSt}, StRel st st' → OutEqv StRel (ipamInnerWith mk os st p) (ipamInnerWith mk os' st' p) := by
-  intro os
-  induction os with
-  | nil => intro os' h _ _ st st' hst; cases h; simpa [ipamInnerWith, OutEqv] using hst
-  | cons ov rest ih =>
-    intro os' h w w' st st' hst
-    cases h with | seqCons hov hrest =>
-    cases w with | seqCons wov wrest =>
-    cases w' with | seqCons wov' wrest' =>
-    rw [ipamInner_cons, ipamInner_cons]
-    refine OutEqv.bind (intoMap_eqv .null .null hov wov wov') (fun left left' hl => ?_)
-    rw [ifaceEq_eqv (subnetOf_eqv hl) (subnetOf_eqv hst.right)]
-    have hk : ∀ s s', StRel s s' → OutEqv StRel (ipamInnerWith mk rest s p) (ipamInnerWith mk _ s' p) :=
-      fun s s' hs => ih hrest wrest wrest' hs
+theorem ipamFold_rel (mk : KVs → KVs → TPath → Out KVs) (p : TPath) (hmk : MkCongr mk p) (hwf : MkWF mk p) :
+    ∀ {ls ls' : List KVs}, PoolsRel ls ls' → ∀ {cfgs cfgs' : List KVs}, PoolsRel cfgs cfgs' →
+      OutEqv PoolsRel (ipamFold mk cfgs ls p) (ipamFold mk cfgs' ls' p) := by
+  intro ls ls' h
+  induction h with
+  | nil => intro cfgs cfgs' hc; simpa [ipamFold, OutEqv] using hc
+  | @cons left left' rest rest' hl _ ih =>
+    intro cfgs cfgs' hc
+    simp only [ipamFold]
+    rw [ipamIndex_eq (subnetOf_eqv hl) hc 0]
     split
-    · trivial
-    · split
-      · exact doM_rel mk p hmk hwf hst hl hk
-      · rw [ipamIndex_eq hst.right (subnetOf_eqv hl) hst.configs 0]
-        split
-        · trivial
-        · exact hk _ _ ⟨hst.right, hst.configs.append (.cons (getD_rel hl) .nil)⟩
-        · exact doM_rel mk p hmk hwf hst hl hk
+    · exact ih (hc.append (.cons hl .nil))
+    · rename_i i _
+      refine OutEqv.bind (mk_rel mk p hmk hwf (getD_rel hc i) hl) (fun m m' hm => ?_)
+      exact ih (listSet_rel hc hm i)
 
 /-- related and well formed -/
 def EqvW (z z' : Val) : Prop := Eqv z z' ∧ WF z ∧ WF z'
 
-theorem final_rel {st st' : IpamSt} (hr : OptMRel st.right st'.right) : ∀ {l l' : List (Option KVs)}, CfgRel l l' →
-    EqvW (.seq (l.map fun e => .map (st.entry e))) (.seq (l'.map fun e => .map (st'.entry e))) := by
-  intro l l' h
+theorem pools_final {l l' : List KVs} (h : PoolsRel l l') : EqvW (.seq (l.map Val.map)) (.seq (l'.map Val.map)) := by
   induction h with
   | nil => exact ⟨.seqNil, .seqNil, .seqNil⟩
-  | cons he _ ih =>
-    have hm := entry_rel hr he
+  | cons hm _ ih =>
     exact ⟨.seqCons (Eqv.map_iff.mpr hm.1) ih.1, .seqCons (WF.map_iff.mpr hm.2.1) ih.2.1,
       .seqCons (WF.map_iff.mpr hm.2.2) ih.2.2⟩
 
-theorem freeze_rel {st st' : IpamSt} (hr : OptMRel st.right st'.right) : ∀ {l l' : List (Option KVs)}, CfgRel l l' →
-    CfgRel (l.map fun e => some (st.entry e)) (l'.map fun e => some (st'.entry e)) := by
-  intro l l' h
-  induction h with
-  | nil => exact .nil
-  | cons he _ ih => exact .cons (entry_rel hr he) ih
-
-theorem ipamOuter_rel (mk : KVs → KVs → TPath → Out KVs) (p : TPath) (hmk : MkCongr mk p) (hwf : MkWF mk p)
-    {o o' : Val} (ho : Eqv o o') (wo : WF o) (wo' : WF o') :
-    ∀ {cs cs' : List Val}, Eqv (.seq cs) (.seq cs') → WF (.seq cs) → WF (.seq cs') →
-    ∀ {st st' : IpamSt}, StRel st st' → OutEqv EqvW (ipamOuterWith mk cs o st p) (ipamOuterWith mk cs' o' st' p) := by
-  intro cs
-  induction cs with
-  | nil =>
-    intro cs' h _ _ st st' hst
-    cases h
-    simp only [ipamOuterWith, OutEqv]
-    exact final_rel hst.right hst.configs
-  | cons original rest ih =>
-    intro cs' h w w' st st' hst
-    cases h with | @seqCons _ orig' _ rest' horig hrest =>
-    cases w with | seqCons worig wrest =>
-    cases w' with | seqCons worig' wrest' =>
-    simp only [ipamOuterWith]
-    refine OutEqv.bind (intoMap_eqv .null .null horig worig worig') (fun right right' hright => ?_)
-    have inner : ∀ {os os' : List Val}, Eqv (.seq os) (.seq os') → WF (.seq os) → WF (.seq os') →
-        OutEqv EqvW
-          ((ipamInnerWith mk os ⟨st.configs, right⟩ p).bind fun s =>
-            ipamOuterWith mk rest o ⟨s.configs.map fun e => some (s.entry e), none⟩ p)
-          ((ipamInnerWith mk os' ⟨st'.configs, right'⟩ p).bind fun s =>
-            ipamOuterWith mk rest' o' ⟨s.configs.map fun e => some (s.entry e), none⟩ p) := by
-      intro os os' hos wos wos'
-      refine OutEqv.bind (ipamInner_rel mk p hmk hwf hos wos wos' ⟨hright, hst.configs⟩) (fun s s' hs => ?_)
-      exact ih hrest wrest wrest' ⟨trivial, freeze_rel hs.right hs.configs⟩
-    cases ho with
-    | seqNil => exact inner .seqNil wo wo'
-    | seqCons a b => exact inner (.seqCons a b) wo wo'
-    | null => simp [OutEqv]
-    | bool b => simp [OutEqv]
-    | int i => simp [OutEqv]
-    | float s => simp [OutEqv]
-    | str s => simp [OutEqv]
-    | map _ _ => simp [OutEqv]
+theorem ipamStep_rel (mk : KVs → KVs → TPath → Out KVs) (p : TPath) (hmk : MkCongr mk p) (hwf : MkWF mk p)
+    {e e' o o' : Val} (he : Eqv e e') (ho : Eqv o o') (we : WF e) (we' : WF e') (wo : WF o) (wo' : WF o') :
+    OutEqv EqvW (ipamStep mk e o p) (ipamStep mk e' o' p) := by
+  simp only [ipamStep]
+  refine OutEqv.bind (ipamPools_rel he we we') (fun base base' hb => ?_)
+  refine OutEqv.bind (ipamPools_rel ho wo wo') (fun other other' hoo => ?_)
+  refine OutEqv.bind (ipamFold_rel mk p hmk hwf hoo hb) (fun cfgs cfgs' hc => ?_)
+  exact pools_final hc
 
 end CV.Deep
